@@ -68,6 +68,9 @@ class MemStore:
         self.yield_rng = None                          # random.Random -> random number of loop yields per op
         self.inflight_read_bytes: Dict[int, int] = {}  # rank -> bytes of buffers handed out and not yet released
         self.on_event: Optional[Callable[[Dict[str, Any]], None]] = None
+        # background-write gate (C09): writes executing on a thread that is not in gate["callers"] wait until
+        # gate["passed"] < gate["allowed"]; lets a harness stop async_take's background I/O at a chosen point
+        self.gate: Optional[Dict[str, Any]] = None
 
     def snapshot_files(self) -> Dict[str, bytes]:
         with self.lock:
@@ -114,6 +117,11 @@ class _MemPluginBase:
         if fault is not None:
             st._ev(op="write_fail", rank=self.rank, raw=write_io.path, path=p, n=n)
             raise InjectedFault(fault)
+        g = st.gate
+        if g is not None and threading.current_thread() not in g["callers"]:
+            while g["passed"] >= g["allowed"]:
+                await asyncio.sleep(0.0005)
+            g["passed"] += 1
         data = bytes(write_io.buf)
         with st.lock:
             st.files[p] = data
